@@ -98,7 +98,8 @@ mut('m12a-index-before-check', ['C12'], 'src/messages.rs',
 mut('m14a-oprf-key-ignores-credid', ['C14', 'C05', 'C08'], 'src/opaque.rs',
     '''            hkdf.expand_multi_info(&[credential_identifier, STR_OPRF_KEY], &mut ikm)''',
     '''            hkdf.expand_multi_info(&[&credential_identifier[..0], STR_OPRF_KEY], &mut ikm)''')
-mut('m01a-client-omits-masking-nonce', ['C01', 'C04', 'C07'], 'src/messages.rs',
+# symmetric (client and server share serialize_without_ke): honest runs still agree, so C01 must stay silent; C04/C07/C09 must fire
+mut('m04b-transcript-omits-masking-nonce', ['C04', 'C07', 'C09'], 'src/messages.rs',
     '''        [beta.as_slice(), masking_nonce.as_slice()]
             .into_iter()
             .chain(masked_response.iter())''', '''        [beta.as_slice(), &masking_nonce.as_slice()[..0]]
